@@ -18,7 +18,7 @@ sys.path.insert(0, os.path.dirname(os.path.abspath(__file__)))
 VERIF_ROOT = os.path.dirname(os.path.dirname(os.path.abspath(__file__)))
 from rustsrc import Source, Item, ExtractError, mask, match_close, loop_headers, split_args  # noqa: E402
 
-SECTION_KEYS = ('loopensures', 'enumerate_loop', 'ghost_begin', 'ghost_at', 'derive-', 'slow', 'loopproof', 'proof_begin', 'assumed_from', 'props', 'requires', 'ensures', 'decreases', 'invariant', 'loopdec', 'proof', 'returns', 'attr',
+SECTION_KEYS = ('props+', 'loopensures', 'enumerate_loop', 'ghost_begin', 'ghost_at', 'derive-', 'slow', 'loopproof', 'proof_begin', 'assumed_from', 'props', 'requires', 'ensures', 'decreases', 'invariant', 'loopdec', 'proof', 'returns', 'attr',
                 'derive+', 'nested', 'specialize', 'novac', 'external_body', 'rename', 'recommends', 'loopiter',
                 'opens_invariants', 'no_unwind')
 
@@ -52,6 +52,7 @@ class Contract:
         self.enumerate_loops = []   # R6: loop ordinals to desugar from `.iter().enumerate()`
         self.slow = False       # verified in the thorough tier only (assumed, external_body, in the quick tier)
         self.props = None       # property ids this item's semantic clauses serve (None: unit default)
+        self.props_add = []     # further properties whose units use this contract as an assumption (`@include f props+ ..`)
 
     def n_clauses(self):
         n = len(self.requires) + len(self.ensures) + len(self.decreases)
@@ -103,7 +104,17 @@ class Unit:
                 parts = st.split()
                 sub = os.path.join(VERIF_ROOT, parts[1])
                 sub_assumed = assumed or (len(parts) > 2 and parts[2] == 'assumed')
-                out += self.load_lines(sub, sub_assumed, home=parts[1])
+                sub_lines = self.load_lines(sub, sub_assumed, home=parts[1])
+                if 'props+' in parts and not sub_assumed:
+                    # the contracts of this file are assumptions of units of further properties: a failure counts for them too
+                    extra = ' '.join(parts[parts.index('props+') + 1:])
+                    tagged = []
+                    for sl in sub_lines:
+                        tagged.append(sl)
+                        if sl.strip().startswith('@item'):
+                            tagged.append('  props+ ' + extra)
+                    sub_lines = tagged
+                out += sub_lines
             elif st.startswith('@item') and assumed:
                 out.append(ln)
                 out.append('  assumed_from %s' % (home or path))
@@ -258,6 +269,8 @@ class Unit:
                     section = None
                 elif first == 'props':
                     c.props = rest.split()
+                elif first == 'props+':
+                    c.props_add += rest.split()
                     section = None
                 elif first == 'assumed_from':
                     c.assumed_from = rest
@@ -584,6 +597,8 @@ class Emitter:
             nc = contract.nested.get(nm, Contract())
             if nc.props is None:
                 nc.props = contract.props
+            if not nc.props_add:
+                nc.props_add = contract.props_add
             if contract.assumed_from:
                 nc.assumed_from = contract.assumed_from
             sub = self.render_fn(body[a:b], nc, fnid + '/' + nm, top=False)
@@ -623,7 +638,7 @@ class Emitter:
             'invariants': sum(len(v) for v in contract.invariants.values()),
             'decreases': len(contract.decreases) + sum(len(v) for v in contract.loopdec.values()),
             'external_body': contract.external_body, 'novac': contract.novac,
-            'props': contract.props if contract.props is not None else self.unit.props,
+            'props': sorted(set((contract.props if contract.props is not None else self.unit.props) + contract.props_add)),
             'ensures_text': [' '.join(x.split()) for x in contract.ensures],
             'requires_text': [' '.join(x.split()) for x in contract.requires],
         })
